@@ -85,6 +85,11 @@ fn huge_image(rng: &mut Rng, k: u64) -> (Vec<u8>, J) {
     let shoff = phoff + nph * phent;
     let data_off = shoff + nsec * shent;
     let mut out = vec![0u8; data_off + 64];
+    // two different name tables in the data area: [data_off+0, +24) and [data_off+32, +56)
+    let names_a = b"\0.first\0.aa\0.bb\0.cc\0.dd\0";
+    let names_b = b"\0.other\0.xx\0.yy\0.zz\0.ww\0";
+    out[data_off..data_off + names_a.len()].copy_from_slice(names_a);
+    out[data_off + 32..data_off + 32 + names_b.len()].copy_from_slice(names_b);
     for i in 0..nph {
         let p = hdr::Phdr {
             typ: if i % 7 == 0 { hdr::PT_LOAD } else { hdr::PT_NULL },
@@ -98,20 +103,40 @@ fn huge_image(rng: &mut Rng, k: u64) -> (Vec<u8>, J) {
         hdr::write_phdr(&mut out, phoff + i * phent, c64, be, &p);
     }
     for i in 1..nsec {
-        let s = hdr::Shdr {
+        let mut s = hdr::Shdr {
+            name: [1u32, 8, 12, 16, 20][i % 5],
             typ: if i % 5 == 0 { hdr::SHT_PROGBITS } else { hdr::SHT_NULL },
             offset: data_off as u64 + (i % 32) as u64,
             size: (i % 17) as u64,
             addralign: 1,
             ..Default::default()
         };
+        if i == 2 {
+            // a name table at a small index ...
+            s.typ = hdr::SHT_STRTAB;
+            s.offset = data_off as u64;
+            s.size = names_a.len() as u64;
+        }
+        if i == nsec - 1 && nsec > 2 {
+            // ... and another one at the last index (>= 0xff00 in the big variants)
+            s.typ = hdr::SHT_STRTAB;
+            s.offset = data_off as u64 + 32;
+            s.size = names_b.len() as u64;
+        }
         hdr::write_shdr(&mut out, shoff + i * shent, c64, be, &s);
     }
+    // which table names the sections: the last index written directly into e_shstrndx
+    // (a reserved-range value when nsec > 0xff00), the SHN_XINDEX escape, or the small one
+    let shstr_variant = (k / 4) % 3;
+    let last = (nsec - 1) as u32;
     let xsh = nsec >= 0xff00;
     let xph = nph >= 0xffff;
     let shdr0 = hdr::Shdr {
         size: if xsh { nsec as u64 } else { 0 },
         info: if xph { nph as u32 } else { 0 },
+        // sh_link always names the *small* table unless the escape variant is in use, so
+        // that a parser taking the escape wrongly reads different names
+        link: if shstr_variant == 1 { last } else { 2 },
         ..Default::default()
     };
     hdr::write_shdr(&mut out, shoff, c64, be, &shdr0);
@@ -128,11 +153,17 @@ fn huge_image(rng: &mut Rng, k: u64) -> (Vec<u8>, J) {
         e_phnum: if xph { 0xffff } else { nph as u16 },
         e_shentsize: shent as u16,
         e_shnum: if xsh { 0 } else { nsec as u16 },
+        e_shstrndx: match shstr_variant {
+            0 => last.min(0xfffe) as u16,
+            1 => 0xffff,
+            _ => 2,
+        },
         ..Default::default()
     };
     hdr::write_ehdr(&mut out, &e);
     let recipe = J::obj()
         .with("source", J::s("huge-tables"))
+        .with("shstrndx_variant", J::s(["direct-last-index", "SHN_XINDEX-escape", "small-index"][shstr_variant as usize]))
         .with("class", J::s(if c64 { "ELF64" } else { "ELF32" }))
         .with("order", J::s(if be { "MSB" } else { "LSB" }))
         .with("real_section_headers", J::u(nsec as u64))
@@ -143,9 +174,16 @@ fn huge_image(rng: &mut Rng, k: u64) -> (Vec<u8>, J) {
 }
 
 /// Extra case k of the C08 check (sweep cases first, then huge-table images).
-pub fn build_extra_scenario(seed: u64, k: u64, tier: &str, _samples: &Samples) -> Scenario {
+pub fn build_extra_scenario(prop: &str, seed: u64, k: u64, tier: &str, _samples: &Samples) -> Scenario {
     let thorough = tier == "thorough";
-    let n_sweep = if thorough { sweep_cases() } else { sweep_cases() / 8 };
+    // C07 has only the huge-table cases; C08 has the field sweep first
+    let n_sweep = if prop != "C08" {
+        0
+    } else if thorough {
+        sweep_cases()
+    } else {
+        sweep_cases() / 8
+    };
     let run_seed = mix(mix(seed, prop_id("C08") ^ 0x5eed), k);
     let mut io = Rng::sub(run_seed, 3);
     let (bytes, recipe, mode) = if k >= n_sweep {
@@ -255,8 +293,18 @@ pub fn build_extra_scenario(seed: u64, k: u64, tier: &str, _samples: &Samples) -
         ops.truncate(160);
     }
     let len = bytes.len() as u64;
+    if mode == "huge-tables" {
+        // name lookups are what the big tables are for
+        let n = ops.len() as u32;
+        for (j, name) in [".first", ".other", ".aa", ".xx", ".absent"].iter().enumerate() {
+            ops.push(crate::ops::OpRec {
+                id: n + 1 + j as u32,
+                op: crate::ops::Op::ByName((*name).to_string()),
+            });
+        }
+    }
     Scenario {
-        prop: "C08".into(),
+        prop: prop.to_string(),
         seed,
         run: k,
         tier: tier.to_string(),
